@@ -23,16 +23,16 @@ func (e *Engine) verifAPI(s *State, f *Frame, call *ssa.Call, fn *ssa.Function, 
 				return false
 			}
 		}
-		set(Fresh(strArg(args[0]), BV(w)))
+		set(s.Fresh(strArg(args[0]), BV(w)))
 		return true
 	case short == "verifNondetBool":
-		set(Fresh(strArg(args[0]), BoolSort))
+		set(s.Fresh(strArg(args[0]), BoolSort))
 		return true
 	case short == "verifNondetBytes":
 		n := intArg(args[1])
 		cells := make([]*Term, n)
 		for i := range cells {
-			cells[i] = Fresh(strArg(args[0]), BV(8))
+			cells[i] = s.Fresh(strArg(args[0]), BV(8))
 		}
 		set(e.newByteSlice(s, cells))
 		return true
@@ -40,7 +40,7 @@ func (e *Engine) verifAPI(s *State, f *Frame, call *ssa.Call, fn *ssa.Function, 
 		n := intArg(args[1])
 		cells := make([]*Term, n)
 		for i := range cells {
-			cells[i] = Fresh(strArg(args[0]), BV(8))
+			cells[i] = s.Fresh(strArg(args[0]), BV(8))
 		}
 		set(mkStr(cells))
 		return true
